@@ -80,6 +80,10 @@ pub struct Plan {
     /// last component of a file destination: with the backend's extension, another one, or none
     #[serde(default)]
     pub dest_name: String,
+    /// how the destination is named: "abs" | "rel" (relative to the working directory) |
+    /// "symlink" (a symbolic link to the file) | "dir-slash" (directory with a trailing slash)
+    #[serde(default)]
+    pub dest_form: String,
     pub sim: SimCfg,
     pub schedule: Option<Vec<u8>>,
     /// "fault-free" | "sweep" | "multi"
@@ -203,6 +207,32 @@ fn prepare_dest(p: &Plan, root: &str, ext: &str, new_len: usize) -> Dest {
     }
     let mut dest = prepare_dest_inner(p, &d, ext, &old);
     dest.old_content = old;
+    match (p.dest_form.as_str(), &p.out, &p.dest) {
+        ("rel", OutKind::File, DestState::Absent | DestState::ExistingFile) | ("rel", OutKind::Dir, _) => {
+            // named relative to the working directory (the child's own; nothing else runs in it)
+            if let OutSel::File(abs) = &dest.out {
+                if let Some(relp) = abs.strip_prefix(&format!("{d}/")) {
+                    std::env::set_current_dir(&d).unwrap();
+                    dest.out = OutSel::File(relp.to_string());
+                }
+            }
+        }
+        ("symlink", OutKind::File, DestState::Absent | DestState::ExistingFile) => {
+            // the destination is a symbolic link to the real file: the bindings go to the target
+            if let (OutSel::File(abs), Some(real)) = (&dest.out, dest.final_path.clone()) {
+                let link = format!("{abs}.link");
+                if std::os::unix::fs::symlink(&real, &link).is_ok() {
+                    dest.out = OutSel::File(link);
+                }
+            }
+        }
+        ("dir-slash", OutKind::Dir, _) => {
+            if let OutSel::File(abs) = &dest.out {
+                dest.out = OutSel::File(format!("{abs}/"));
+            }
+        }
+        _ => {}
+    }
     dest
 }
 
@@ -412,7 +442,7 @@ impl Scenario for C20Lib {
         simcfg.capture_stdout = out == OutKind::Stdout;
         let old_longer = w.chance(1, 2);
         let dest_name = w.pick(&["", "", "bindings", "out.d", "asn1-bindings.generated", "Makefile"]).to_string();
-        let p = Plan { seed, set, order, malform, backend, delivery, bp, out, dest, old_longer, dest_name, sim: simcfg, schedule: None, phase: "fault-free".into() };
+        let p = Plan { seed, set, order, malform, backend, delivery, bp, out, dest, old_longer, dest_name, dest_form: w.pick(&["abs", "abs", "abs", "rel", "symlink", "dir-slash"]).to_string(), sim: simcfg, schedule: None, phase: "fault-free".into() };
         serde_json::to_value(&p).unwrap()
     }
 
@@ -480,7 +510,7 @@ impl Scenario for C20Lib {
         let hard_write = fired.iter().any(|f| !is_benign(f) && (f.cls == shim::C_WRITE || f.cls == shim::C_WRITE_STDOUT));
         let close_fault = fired.iter().any(|f| f.cls == shim::C_CLOSE);
         // a stat fault on the destination (is_dir) as opposed to one on a source file's fd
-        let stat_dest_fault = rep.events.iter().any(|e| e.call == "stat" && e.fault != "none" && e.path.starts_with("out/"));
+        let stat_dest_fault = rep.events.iter().any(|e| e.call == "stat" && e.fault != "none" && !e.path.starts_with("src/") && !e.path.starts_with("cargo-home"));
         let real_dest_problem = matches!(p.dest, DestState::MissingParent | DestState::ParentIsFile);
         let delivered: Option<Vec<u8>> = match &p.out {
             OutKind::Stdout => Some(rep.stdout.clone()),
